@@ -1,4 +1,32 @@
-(* C15 entry: which < 50 the action state machines (Model/C15Entry.v), which >= 50 the processor-level clauses on pipeline traces *)
-From Verif Require Import Base.Sx Model.C15Entry Model.PipeEntry.
+(* C15 entry: which < 50 the action state machines (Model/C15Entry.v), which >= 50 the processor-level clauses on pipeline traces;
+   which = 51: families with a split action LEFT of a holding action (children of a split meet a busy action; Spawn sends its
+   own time-out events): the single-stream monitor counts a child event (it has no stream of its own: stream id -1) as an
+   event of the stream its processor is serving *)
+From Verif Require Import Base.Sx Model.C15Entry Model.PipeEntry Model.PipeGlue Gen.BatcherGen.
+
+(* cur: processor -> the stream of the last event with a stream it handed to an action; holder: (processor, action) -> the
+   stream of the event the action holds.  Labels: (3 p 30 stream seq action kind+8*busy) Do, (3 p 31 stream seq action result) *)
+Fixpoint m_single_stream_kids (es : list pentry) (cur : list (Z * Z)) (holder : list ((Z * Z) * Z)) : bool :=
+  match es with
+  | [] => true
+  | e :: r =>
+      let s := if 0 <=? pa e then pa e
+               else match last_of_ (poi e) cur with Some v => v | None => -1 end in
+      if is_k 3 31 e && ((pd e =? 3) || (pd e =? 1)) then m_single_stream_kids r cur (((poi e, pc e), s) :: holder)
+      else if is_k 3 30 e then
+        let cur' := if 0 <=? pa e then (poi e, pa e) :: cur else cur in
+        if 8 <=? pd e then
+          (match find (fun kv => key_eqb (fst kv) (poi e, pc e)) holder with
+           | Some kv => snd kv =? s
+           | None => false
+           end) && m_single_stream_kids r cur' holder
+        else m_single_stream_kids r cur' holder
+      else m_single_stream_kids r cur holder
+  end.
+
+Definition c15_kids_mon (c : pcfg) (es : list pentry) : list (Z * bool) :=
+  [(1, m_no_wedge es); (10, m_single_stream_kids es [] []); (9, m_timeout_to_busy es)].
+
 Definition c15_full_entry (which : Z) (case obs : sx) : verdict :=
-  if 50 <=? which then c15_pipe_entry which case obs else c15_entry which case obs.
+  if which =? 51 then pipe_run batcher_atomic_push c15_kids_mon case obs
+  else if 50 <=? which then c15_pipe_entry which case obs else c15_entry which case obs.
